@@ -105,3 +105,53 @@ gpg_error_t gcry_kdf_derive(const void *pass, size_t passlen, int algo, int suba
 }
 
 } // extern "C"
+
+// ---------------------------------------------------------------------------
+// Huge line buffers.  The stack importers of the library allocate
+// TMCG_MAX_STACK_CHARS (640 MiB) with new char[] for every line they read; under
+// ASan each such allocation maps the block and poisons 80 MiB of shadow (seconds
+// on a loaded machine).  Array allocations of >= 256 MiB are therefore served from
+// lazily touched anonymous mappings; everything else goes to malloc()/free(), i.e.
+// stays fully ASan-checked (red zones, use-after-free, double free).  Only the
+// new[]/delete mismatch check is lost for array allocations.
+#include <sys/mman.h>
+#include <new>
+#include <cstdlib>
+#include <pthread.h>
+namespace {
+struct BigSlot { void *p; size_t n; bool used; };
+BigSlot g_big[16];
+pthread_mutex_t g_big_mu = PTHREAD_MUTEX_INITIALIZER;
+const size_t BIG_MIN = (size_t)256 << 20;
+void *big_alloc(size_t n) {
+	pthread_mutex_lock(&g_big_mu);
+	for (auto &s : g_big) if (s.p && !s.used && s.n >= n) { s.used = true; pthread_mutex_unlock(&g_big_mu); return s.p; }
+	for (auto &s : g_big) if (!s.p) {
+		void *p = mmap(nullptr, n, PROT_READ | PROT_WRITE, MAP_PRIVATE | MAP_ANONYMOUS | MAP_NORESERVE, -1, 0);
+		if (p == MAP_FAILED) break;
+		s.p = p; s.n = n; s.used = true; pthread_mutex_unlock(&g_big_mu); return p;
+	}
+	pthread_mutex_unlock(&g_big_mu);
+	return nullptr;
+}
+bool big_free(void *p) {
+	pthread_mutex_lock(&g_big_mu);
+	for (auto &s : g_big) if (s.p == p && s.used) { s.used = false; madvise(s.p, s.n, MADV_DONTNEED); pthread_mutex_unlock(&g_big_mu); return true; }
+	pthread_mutex_unlock(&g_big_mu);
+	return false;
+}
+}
+namespace vf { unsigned long g_big_allocs = 0; }
+void *operator new[](std::size_t n) {
+	if (n >= BIG_MIN) { void *p = big_alloc(n); if (p) { vf::g_big_allocs++; return p; } }
+	void *p = malloc(n ? n : 1);
+	if (!p) throw std::bad_alloc();
+	return p;
+}
+void *operator new[](std::size_t n, const std::nothrow_t &) noexcept {
+	if (n >= BIG_MIN) { void *p = big_alloc(n); if (p) { vf::g_big_allocs++; return p; } }
+	return malloc(n ? n : 1);
+}
+void operator delete[](void *p) noexcept { if (!p) return; if (big_free(p)) return; free(p); }
+void operator delete[](void *p, std::size_t) noexcept { if (!p) return; if (big_free(p)) return; free(p); }
+void operator delete[](void *p, const std::nothrow_t &) noexcept { if (!p) return; if (big_free(p)) return; free(p); }
